@@ -100,6 +100,27 @@ func (m *ModSet) heapNames() []string {
 
 // havoc applies a ModSet to a state, producing fresh heaps constrained by frame facts.
 func (c *Ctx) havoc(st *State, m *ModSet, why string) {
+	if len(c.immCells) > 0 {
+		// variables held in cells that are assigned exactly once in their whole lexical family
+		// (checked on the SSA) keep their content across any havoc
+		before := map[string]Term{}
+		for _, ic := range c.immCells {
+			hn := heapName(ic.srt)
+			if cur, ok := st.heaps[hn]; ok {
+				before[hn] = cur
+			} else {
+				before[hn] = c.entryHeapByName(hn)
+			}
+		}
+		defer func() {
+			for _, ic := range c.immCells {
+				hn := heapName(ic.srt)
+				if now, ok := st.heaps[hn]; ok && now.S != before[hn].S {
+					c.assume(eq(sel(now, ic.ptr, ic.srt), sel(before[hn], ic.ptr, ic.srt)))
+				}
+			}
+		}()
+	}
 	if m.all {
 		// everything the program can reach may have changed
 		for _, hn := range sortedKeys(c.heapSort) {
@@ -1058,6 +1079,9 @@ func (fr *Frame) lookupLocalAt(name string, b *ssa.BasicBlock, get func(*ssa.Phi
 							}
 							continue
 						}
+						if b, ok := fr.cellVarNow(dr, st); ok {
+							return b, true
+						}
 						if t, ok := fr.tryVal(dr.X); ok {
 							return Binding{t, dr.X.Type()}, true
 						}
@@ -1174,4 +1198,119 @@ func debugRefName(dr *ssa.DebugRef) string {
 
 func autoKey(fn *ssa.Function, loop int, name string) string {
 	return fmt.Sprintf("%s|%d|%s", funcKey(fn), loop, name)
+}
+
+// ---- cells of variables that are assigned once ------------------------------------------------
+
+type immCell struct {
+	ptr Term
+	srt string
+}
+
+// cellRoot follows a captured variable to the Alloc that holds it and the function owning it.
+func cellRoot(fn *ssa.Function, v ssa.Value) (*ssa.Function, *ssa.Alloc) {
+	for depth := 0; depth < 16; depth++ {
+		switch x := v.(type) {
+		case *ssa.Alloc:
+			return fn, x
+		case *ssa.FreeVar:
+			par := fn.Parent()
+			if par == nil {
+				return nil, nil
+			}
+			idx := -1
+			for i, fv := range fn.FreeVars {
+				if fv == x {
+					idx = i
+				}
+			}
+			var next ssa.Value
+			for _, b := range par.Blocks {
+				for _, ins := range b.Instrs {
+					if mc, ok := ins.(*ssa.MakeClosure); ok && mc.Fn == fn && idx >= 0 && idx < len(mc.Bindings) {
+						next = mc.Bindings[idx]
+					}
+				}
+			}
+			if next == nil {
+				return nil, nil
+			}
+			fn, v = par, next
+		default:
+			return nil, nil
+		}
+	}
+	return nil, nil
+}
+
+// cellAssignedOnce: the variable in the cell is stored at most once in the owner function and
+// never in a nested closure, and the cell's address is used for nothing but loads, stores,
+// closure capture and debug references (so nothing else can write it).
+func cellAssignedOnce(owner *ssa.Function, cell ssa.Value) bool {
+	stores := 0
+	var walk func(fn *ssa.Function, v ssa.Value, nested bool) bool
+	walk = func(fn *ssa.Function, v ssa.Value, nested bool) bool {
+		refs := v.Referrers()
+		if refs == nil {
+			return false
+		}
+		for _, r := range *refs {
+			switch x := r.(type) {
+			case *ssa.Store:
+				if x.Addr != v {
+					return false // the address itself is stored somewhere
+				}
+				if nested {
+					return false
+				}
+				stores++
+			case *ssa.UnOp:
+				if x.Op != token.MUL {
+					return false
+				}
+			case *ssa.DebugRef:
+			case *ssa.MakeClosure:
+				cf, ok := x.Fn.(*ssa.Function)
+				if !ok {
+					return false
+				}
+				for i, b := range x.Bindings {
+					if b == v {
+						if i >= len(cf.FreeVars) || !walk(cf, cf.FreeVars[i], true) {
+							return false
+						}
+					}
+				}
+			default:
+				return false
+			}
+		}
+		return true
+	}
+	return walk(owner, cell, false) && stores <= 1
+}
+
+// registerImmCell records the cell of a once-assigned variable so that havocs keep its content.
+func (fr *Frame) registerImmCell(v ssa.Value, ptr Term) {
+	if fr.top != nil {
+		return
+	}
+	owner, root := cellRoot(fr.fn, v)
+	if root == nil || !root.Heap {
+		return
+	}
+	et := root.Type().Underlying().(*types.Pointer).Elem()
+	if leafCount(et) != 1 {
+		return
+	}
+	if _, isStruct := et.Underlying().(*types.Struct); isStruct {
+		return
+	}
+	if _, isArr := et.Underlying().(*types.Array); isArr {
+		return
+	}
+	if !cellAssignedOnce(owner, root) {
+		return
+	}
+	fr.c.immCells = append(fr.c.immCells, immCell{ptr, fr.c.sortOf(et)})
 }
